@@ -413,6 +413,12 @@ def op_family(tok):
 
 def classify(case, ir, mr):
     ops = case.split(' ')[4:]
+    if ir is not None and 'CRASH' in ir and '@' in ir:
+        try:
+            k = int(ir.split(' ')[0].rsplit('@', 1)[1])
+            return op_family(ops[k])
+        except (ValueError, IndexError):
+            pass
     if ir is None or 'CRASH' in ir:
         real = [o for o in ops if not o.startswith('ctor_c')] or ops
         # the step the model refuses / faults on, else the last operation
